@@ -205,19 +205,101 @@ Definition entry_at (dl : list (option plat)) (i : nat) : option plat :=
   match nth_error dl i with Some (Some p) => Some p | _ => None end.
 
 (* invariant-carrying generalisation: [pre] = entries already scanned, offset i = |pre| *)
+Lemma not_compat_not_better h x r : compatible h x = false -> better_n h x r = false.
+Proof. intro H. destruct (better_n h x r) eqn:E; [|reflexivity]. apply better_compat in E. congruence. Qed.
+Lemma better_irrefl h d : better_n h d d = false.
+Proof. destruct (better_n h d d) eqn:Hdd; [|reflexivity]. now rewrite (better_asym _ _ _ Hdd) in Hdd. Qed.
+
 Lemma search_loop_inv h : forall dl pre ret retPlat,
+  (match ret with
+   | None => forall x, In (Some x) pre -> compatible h x = false
+   | Some j => entry_at (pre ++ dl) j = Some retPlat /\ compatible h retPlat = true /\
+               (forall x, In (Some x) pre -> better_n h x retPlat = false)
+   end) ->
+  match search_loop h dl (List.length pre) ret retPlat with
+  | None => ret = None /\ (forall x, In (Some x) (pre ++ dl) -> compatible h x = false)
+  | Some j => exists r, entry_at (pre ++ dl) j = Some r /\ compatible h r = true /\
+                        (forall x, In (Some x) (pre ++ dl) -> better_n h x r = false)
+  end.
+Proof.
+  induction dl as [|d dl IH]; intros pre ret retPlat Hret; cbn [search_loop].
+  - destruct ret as [j|].
+    + destruct Hret as (Hj & Hc & Hpre). exists retPlat. rewrite app_nil_r in *. auto.
+    + split; [reflexivity|]. rewrite app_nil_r. exact Hret.
+  - assert (Hlen : List.length (pre ++ [d]) = S (List.length pre)) by (rewrite app_length; cbn; lia).
+    assert (Happ : (pre ++ [d]) ++ dl = pre ++ d :: dl) by (rewrite <- app_assoc; reflexivity).
+    assert (Hat : forall e, entry_at (pre ++ Some e :: dl) (List.length pre) = Some e).
+    { intro e. unfold entry_at. rewrite nth_error_app2 by lia. now rewrite Nat.sub_diag. }
+    destruct d as [d|].
+    + destruct ret as [j|].
+      * destruct Hret as (Hj & Hc & Hpre). destruct (better_n h d retPlat) eqn:Hb.
+        -- specialize (IH (pre ++ [Some d]) (Some (List.length pre)) d). rewrite Hlen, Happ in IH.
+           assert (P : entry_at (pre ++ Some d :: dl) (List.length pre) = Some d /\ compatible h d = true /\
+                       (forall x, In (Some x) (pre ++ [Some d]) -> better_n h x d = false)).
+           { split; [apply Hat|]. split; [eapply better_compat; eassumption|].
+             intros x Hx. apply in_app_or in Hx as [Hx|[Hx|[]]].
+             - destruct (better_n h x d) eqn:Hxd; [|reflexivity].
+               rewrite <- (Hpre x Hx). symmetry. eapply better_trans; eassumption.
+             - injection Hx as <-. apply better_irrefl. }
+           specialize (IH P).
+           destruct (search_loop h dl (S (List.length pre)) (Some (List.length pre)) d) as [j'|]; [exact IH|].
+           destruct IH as [Hn _]. discriminate Hn.
+        -- specialize (IH (pre ++ [Some d]) (Some j) retPlat). rewrite Hlen, Happ in IH. apply IH.
+           split; [exact Hj|]. split; [exact Hc|].
+           intros x Hx. apply in_app_or in Hx as [Hx|[Hx|[]]]; [auto|]. now injection Hx as <-.
+      * destruct (compatible h d) eqn:Hb.
+        -- specialize (IH (pre ++ [Some d]) (Some (List.length pre)) d). rewrite Hlen, Happ in IH.
+           assert (P : entry_at (pre ++ Some d :: dl) (List.length pre) = Some d /\ compatible h d = true /\
+                       (forall x, In (Some x) (pre ++ [Some d]) -> better_n h x d = false)).
+           { split; [apply Hat|]. split; [exact Hb|].
+             intros x Hx. apply in_app_or in Hx as [Hx|[Hx|[]]].
+             - apply not_compat_not_better. now apply Hret.
+             - injection Hx as <-. apply better_irrefl. }
+           specialize (IH P).
+           destruct (search_loop h dl (S (List.length pre)) (Some (List.length pre)) d) as [j|]; [exact IH|].
+           destruct IH as [Hn _]. discriminate Hn.
+        -- specialize (IH (pre ++ [Some d]) None retPlat). rewrite Hlen, Happ in IH. apply IH.
+           intros x Hx. apply in_app_or in Hx as [Hx|[Hx|[]]]; [auto|]. now injection Hx as <-.
+    + specialize (IH (pre ++ [None]) ret retPlat). rewrite Hlen, Happ in IH.
+      assert (Hret' : match ret with
+                      | None => forall x, In (Some x) (pre ++ [None]) -> compatible h x = false
+                      | Some j => entry_at (pre ++ None :: dl) j = Some retPlat /\ compatible h retPlat = true /\
+                                  (forall x, In (Some x) (pre ++ [None]) -> better_n h x retPlat = false)
+                      end).
+      { destruct ret as [j|].
+        - destruct Hret as (Hj & Hc & Hpre). split; [exact Hj|]. split; [exact Hc|].
+          intros x Hx. apply in_app_or in Hx as [Hx|[Hx|[]]]; [auto|discriminate].
+        - intros x Hx. apply in_app_or in Hx as [Hx|[Hx|[]]]; [auto|discriminate]. }
+      exact (IH Hret').
+Qed.
+
+Lemma search_spec host dl :
+  match search host dl with
+  | None => forall x, In (Some x) dl -> compatible (normalize host) x = false
+  | Some j => exists r, entry_at dl j = Some r /\ compatible (normalize host) r = true /\
+                        (forall x, In (Some x) dl -> better_n (normalize host) x r = false)
+  end.
+Proof.
+  unfold search.
+  pose proof (search_loop_inv (normalize host) dl [] None zero_plat) as H. cbn [List.length app] in H.
+  specialize (H (fun x (Hx : In (Some x) []) => match Hx with end)).
+  destruct (search_loop (normalize host) dl 0 None zero_plat); [exact H|]. apply H.
+Qed.
+
+(* the scan before the repair: invariant with the zero platform as the initial "previous best" *)
+Lemma search_loop_old_inv h : forall dl pre ret retPlat,
   (forall x, In (Some x) pre -> better_n h x retPlat = false) ->
   (match ret with
    | None => retPlat = zero_plat
    | Some j => entry_at (pre ++ dl) j = Some retPlat /\ compatible h retPlat = true
    end) ->
-  match search_loop h dl (List.length pre) ret retPlat with
+  match search_loop_old h dl (List.length pre) ret retPlat with
   | None => ret = None /\ (forall x, In (Some x) dl -> better_n h x zero_plat = false)
   | Some j => exists r, entry_at (pre ++ dl) j = Some r /\ compatible h r = true /\
                         (forall x, In (Some x) (pre ++ dl) -> better_n h x r = false)
   end.
 Proof.
-  induction dl as [|d dl IH]; intros pre ret retPlat Hpre Hret; cbn [search_loop].
+  induction dl as [|d dl IH]; intros pre ret retPlat Hpre Hret; cbn [search_loop_old].
   - destruct ret as [j|].
     + destruct Hret as [Hj Hc]. exists retPlat. rewrite app_nil_r in *. auto.
     + split; [reflexivity|]. intros x [].
@@ -231,41 +313,39 @@ Proof.
         { intros x Hx. apply in_app_or in Hx as [Hx|[Hx|[]]].
            ++ destruct (better_n h x d) eqn:Hxd; [|reflexivity].
               rewrite <- (Hpre x Hx). symmetry. eapply better_trans; eassumption.
-           ++ injection Hx as <-. destruct (better_n h d d) eqn:Hdd; [|reflexivity].
-              now rewrite (better_asym _ _ _ Hdd) in Hdd. }
+           ++ injection Hx as <-. apply better_irrefl. }
         assert (P2 : entry_at (pre ++ Some d :: dl) (List.length pre) = Some d /\ compatible h d = true).
         { split; [|eapply better_compat; eassumption].
           unfold entry_at. rewrite nth_error_app2 by lia. now rewrite Nat.sub_diag. }
         specialize (IH P1 P2).
-        destruct (search_loop h dl (S (List.length pre)) (Some (List.length pre)) d) as [j|]; [exact IH|].
+        destruct (search_loop_old h dl (S (List.length pre)) (Some (List.length pre)) d) as [j|]; [exact IH|].
         destruct IH as [Hn _]. discriminate Hn.
       * specialize (IH (pre ++ [Some d]) ret retPlat). rewrite Hlen, Happ in IH.
         assert (Hpre' : forall x, In (Some x) (pre ++ [Some d]) -> better_n h x retPlat = false).
         { intros x Hx. apply in_app_or in Hx as [Hx|[Hx|[]]]; [auto|]. now injection Hx as <-. }
         specialize (IH Hpre' Hret).
-        destruct (search_loop h dl (S (List.length pre)) ret retPlat) as [j|]; [exact IH|].
+        destruct (search_loop_old h dl (S (List.length pre)) ret retPlat) as [j|]; [exact IH|].
         destruct IH as [Hn Hall]. split; [exact Hn|].
         intros x [Hx|Hx]; [|auto]. injection Hx as <-. subst ret. rewrite Hret in Hb. exact Hb.
     + specialize (IH (pre ++ [None]) ret retPlat). rewrite Hlen, Happ in IH.
       assert (Hpre' : forall x, In (Some x) (pre ++ [None]) -> better_n h x retPlat = false).
       { intros x Hx. apply in_app_or in Hx as [Hx|[Hx|[]]]; [auto|discriminate]. }
       specialize (IH Hpre' Hret).
-      destruct (search_loop h dl (S (List.length pre)) ret retPlat) as [j|]; [exact IH|].
+      destruct (search_loop_old h dl (S (List.length pre)) ret retPlat) as [j|]; [exact IH|].
       destruct IH as [Hn Hall]. split; [exact Hn|].
       intros x [Hx|Hx]; [discriminate|auto].
 Qed.
-
-Lemma search_spec host dl :
-  match search host dl with
+Lemma search_old_spec host dl :
+  match search_old host dl with
   | None => forall x, In (Some x) dl -> better_n (normalize host) x zero_plat = false
   | Some j => exists r, entry_at dl j = Some r /\ compatible (normalize host) r = true /\
                         (forall x, In (Some x) dl -> better_n (normalize host) x r = false)
   end.
 Proof.
-  unfold search.
-  pose proof (search_loop_inv (normalize host) dl [] None zero_plat) as H. cbn [List.length app] in H.
+  unfold search_old.
+  pose proof (search_loop_old_inv (normalize host) dl [] None zero_plat) as H. cbn [List.length app] in H.
   specialize (H (fun x (Hx : In (Some x) []) => match Hx with end) eq_refl).
-  destruct (search_loop (normalize host) dl 0 None zero_plat); [exact H|]. apply H.
+  destruct (search_loop_old (normalize host) dl 0 None zero_plat); [exact H|]. apply H.
 Qed.
 
 (* compatible entries beat the zero platform, provided the host names an architecture *)
@@ -403,11 +483,25 @@ Proof.
   destruct H as (r & Hr & Hc & _). exists r. split; [exact Hr|]. now rewrite <- compatible_norm_host.
 Qed.
 
-Lemma found_if_any host dl x : arch (normalize host) <> "" ->
+Lemma found_if_any host dl x :
   In (Some x) dl -> compatible host x = true -> search host dl <> None.
 Proof.
-  intros Ha Hin Hc Hs. pose proof (search_spec host dl) as H. rewrite Hs in H.
+  intros Hin Hc Hs. pose proof (search_spec host dl) as H. rewrite Hs in H.
+  specialize (H x Hin). rewrite compatible_norm_host in H. congruence.
+Qed.
+(* before the repair the same claim needed the host to name an architecture ... *)
+Lemma found_if_any_old host dl x : arch (normalize host) <> "" ->
+  In (Some x) dl -> compatible host x = true -> search_old host dl <> None.
+Proof.
+  intros Ha Hin Hc Hs. pose proof (search_old_spec host dl) as H. rewrite Hs in H.
   specialize (H x Hin). rewrite better_zero in H; [discriminate|exact Ha|now rewrite compatible_norm_host].
+Qed.
+(* ... and failed without one: a host that gives only a variant does not find the entry it can run *)
+Lemma found_if_any_old_refuted : exists host dl x,
+  In (Some x) dl /\ compatible host x = true /\ search_old host dl = None /\ search host dl = Some 0.
+Proof.
+  exists (mkPlat "" "" "" [] "5" []), [Some (mkPlat "" "" "" [] "" [])], (mkPlat "" "" "" [] "" []).
+  split; [left; reflexivity|]. split; [vm_compute; reflexivity|]. split; vm_compute; reflexivity.
 Qed.
 
 Lemma none_better host dl j r : search host dl = Some j -> entry_at dl j = Some r ->
@@ -436,12 +530,12 @@ Proof.
 Qed.
 
 Lemma found_order_independent host dl dl' :
-  arch (normalize host) <> "" -> (forall e, In e dl <-> In e dl') ->
+  (forall e, In e dl <-> In e dl') ->
   search host dl <> None -> search host dl' <> None.
 Proof.
-  intros Ha Hperm Hs. destruct (search host dl) as [j|] eqn:E; [|congruence].
+  intros Hperm Hs. destruct (search host dl) as [j|] eqn:E; [|congruence].
   destruct (result_runnable _ _ _ E) as (r & Hr & Hc).
-  eapply found_if_any; [exact Ha| |exact Hc]. apply Hperm. eapply entry_at_in; eassumption.
+  eapply found_if_any; [|exact Hc]. apply Hperm. eapply entry_at_in; eassumption.
 Qed.
 
 Lemma exact_preferred host dl x j r :
